@@ -25,3 +25,15 @@ func (group *Group) VerifHasInSession() bool {
 	defer group.mutex.Unlock()
 	return group.hasInSession()
 }
+
+// VerifFlushPushSessions waits until everything written to the relay-push
+// sessions so far has been handed to the transport.
+func (group *Group) VerifFlushPushSessions() {
+	group.mutex.Lock()
+	defer group.mutex.Unlock()
+	for _, v := range group.url2PushProxy {
+		if v.pushSession != nil {
+			_ = v.pushSession.Flush()
+		}
+	}
+}
